@@ -1276,9 +1276,9 @@ def obliterate(base: Dict[str, Any], deletions: Dict[str, Any]) -> None:
     """
     for key, value in deletions.items():
         if isinstance(value, dict):
-            # NOTE: not testing for whether base[key] exists; if something's
-            # listed in a deletions structure, it must exist in some source
-            # somewhere, and thus also in the cache being obliterated.
-            obliterate(base[key], deletions[key])
+            # NOTE: the key may no longer exist if a lower level was reloaded
+            # since the deletion was recorded; then there is nothing to do.
+            if isinstance(base.get(key), dict):
+                obliterate(base[key], deletions[key])
         else:  # implicitly None
-            del base[key]
+            base.pop(key, None)
